@@ -751,10 +751,27 @@ func runC04(c *Ctx) {
 		// on send error something must be delivered: err != nil branch reaches the send or a failed lookup
 		sendCalls := callsWhere(dr, func(cc *ssa.CallCommon) bool { return calleeName(cc) == "sendPacket" })
 		if len(sendCalls) == 1 {
+			// on the side where the error is not nil, every path to the return goes through the table lookup (which
+			// then delivers it, or finds that the receiver already took the channel) — whichever way the test is written
 			tested := false
 			for _, r := range *sendCalls[0].(*ssa.Call).Referrers() {
-				if b, ok := r.(*ssa.BinOp); ok && b.Op == token.NEQ {
-					tested = true
+				b, ok := r.(*ssa.BinOp)
+				if !ok || (b.Op != token.NEQ && b.Op != token.EQL) || !(isNilConst(b.X) || isNilConst(b.Y)) {
+					continue
+				}
+				errSide := 0
+				if b.Op == token.EQL {
+					errSide = 1
+				}
+				for _, rr := range *b.Referrers() {
+					if iff, ok := rr.(*ssa.If); ok {
+						if !reachFromBlock(iff.Block().Succs[errSide], isReturn, func(in ssa.Instruction) bool {
+							cc := callOf(in)
+							return cc != nil && cc.StaticCallee() == get
+						}) {
+							tested = true
+						}
+					}
 				}
 			}
 			c.check(tested, "R4", "send error is examined", pos(sendCalls[0]), "err != nil handled", "the error of conn.sendPacket is ignored: the caller waits forever for a reply to a request that was never written")
